@@ -25,6 +25,7 @@ type simNode struct {
 	announce           string // inv | headers
 	invTrail           int    // how many ancestors an inv announcement lists before the new block
 	invTx              bool   // inv announcements end with a transaction entry
+	gone               bool   // the node has left the network (healing mode others-leave): it neither connects nor answers dials
 	ignoresSendHeaders bool   // keeps announcing by inv after the service's sendheaders (a pre-BIP-130 node)
 	skew               time.Duration
 	silentAt           int // goes silent after having received this many messages (-1 never)
